@@ -41,7 +41,7 @@ def start_floor(prop, tier, seed):
     if not os.path.exists(path):
         return None
     os.makedirs(os.path.join(ROOT, 'evidence'), exist_ok=True)
-    out = os.path.join(ROOT, 'evidence', '.floor_%s.json' % prop)
+    out = os.path.join(ROOT, 'evidence', '.floor_%s_%d.json' % (prop, os.getpid()))     # per run: two runs of one check may overlap
     if os.path.exists(out):
         os.unlink(out)
     env = dict(os.environ)
@@ -235,4 +235,13 @@ def main():
 
 
 if __name__ == '__main__':
-    main()
+    try:
+        main()
+    except SystemExit:
+        raise
+    except BaseException:
+        # a crash of the checker itself is exit 3 (never 1: exit 1 is reserved for a violation with its VIOLATION line)
+        import traceback
+        traceback.print_exc()
+        print('CHECKER-ERROR: the check crashed; nothing is reported about the property')
+        sys.exit(3)
